@@ -109,6 +109,25 @@ static bool gen_c20(uint64_t seed, const std::string &tier, uint64_t i, Plan &p)
       break; }
     case 7: {   // qmail-send: byte soup on the report channels, hostile control files and envelopes
       p.world = "Q"; Json conf = Json::obj(); conf.set("queuelifetime", 1000); p.knobs.set("conf", conf).set("oracles", oracle_list({"none"}));
+      if (r.chance(0.25)) {
+        // configuration reread (SIGHUP) that fails half-way, after a control file grew: the maps in use must stay valid
+        Json loc = Json::arr(); for (const char *d : {"l.example", "old1.example", "old2.example", "zz.example"}) loc.push(d); conf.set("locals", loc);
+        Json vd = Json::arr(); vd.push("v.example:alias-v"); vd.push(".w.example:alias-w"); conf.set("virtualdomains", vd); p.knobs.set("conf", conf);
+        p.ops.push(Json::obj().set("op", "boot"));
+        auto inj = [&](const char *id) { Json in = Json::obj(); in.set("op", "inject").set("id", id).set("sender", "s@x.example").set("body_len", 50).set("body_seed", 1); Json rc = Json::arr(); for (const char *a : {"a@old1.example", "b@L.Example", "c@v.example", "d@x.w.example", "e@r.example", "f@zz.example"}) if (r.chance(0.7)) rc.push(a); if (rc.a.empty()) rc.push("a@old1.example"); in.set("rcpts", rc); p.ops.push(in); };
+        inj("m1"); p.ops.push(Json::obj().set("op", "yield").set("n", (long long)r.range(50, 400)));
+        int rounds = (int)r.range(1, 3);
+        for (int q = 0; q < rounds; q++) {
+          std::string big; int nl = (int)r.pick(std::vector<int>{3, 40, 400}); for (int z = 0; z < nl; z++) big += "grown" + std::to_string(z) + ".example\n"; big += "l.example\nold1.example\n";
+          std::string which = r.chance(0.5) ? "locals" : "virtualdomains";
+          p.ops.push(Json::obj().set("op", "control").set("file", which).set("content", which == "locals" ? big : "v.example:alias-v\n" + std::string((size_t)nl * 20, 'v') + ".example:alias-x\n"));
+          Fault f; f.actor = "qmail-send"; f.call = r.pick(std::vector<CallId>{C_OPEN, C_READ}); f.path = r.chance(0.5) ? "/control/virtualdomains" : "/control/locals"; f.nth = (int)r.range(2, 4) + q; f.kind = "error"; f.err = r.pick(std::vector<int>{EIO, EACCES, ENOMEM}); p.faults.push_back(f);
+          p.ops.push(Json::obj().set("op", "signal").set("to", "qmail-send").set("sig", "HUP")); p.ops.push(Json::obj().set("op", "yield").set("n", (long long)r.range(20, 300)));
+          inj(q == 0 ? "m2" : q == 1 ? "m3" : "m4"); p.ops.push(Json::obj().set("op", "yield").set("n", (long long)r.range(50, 400)));
+        }
+        p.ops.push(Json::obj().set("op", "settle").set("max_s", 5000)); p.knobs.set("max_sim_s", 100000).set("default_verdict", "K");
+        p.label = "qmail-send failing configuration reread"; break;
+      }
       Json raw = Json::obj(); int k = (int)r.below(6);
       if (k == 0) raw.set("locals", std::string(1000000, 'l')); else if (k == 1) raw.set("virtualdomains", rnd_bytes(r, 5000)); else if (k == 2) raw.set("percenthack", "l.example"); else if (k == 3) raw.set("concurrencyremote", "99999999999999999999\n"); else if (k == 4) raw.set("queuelifetime", "-5\n"); else raw.set("doublebounceto", std::string(70000, 'd'));
       p.knobs.set("control_raw", raw);
